@@ -2,8 +2,8 @@
    Statements only; every proof is `exact <lemma of Proofs/C08_*.v>`.
    Quantification: every pin value / every decoded protobuf message (fields arbitrary or absent). *)
 From V Require Import Base.Common Base.C08_Str Model.C08_Codec Model.C08_Query Model.C08_Status Model.C08_Equals
-  Base.C08_Schema Gen.C08Tags Model.C08_Fmap Model.C08_Wire
-  Proofs.C08_Codec Proofs.C08_Query Proofs.C08_Status Proofs.C08_Equals Proofs.C08_Fmap Proofs.C08_Wire.
+  Base.C08_Schema Gen.C08Tags Model.C08_Fmap Model.C08_Wire Model.C08_Reuse
+  Proofs.C08_Codec Proofs.C08_Query Proofs.C08_Status Proofs.C08_Equals Proofs.C08_Fmap Proofs.C08_Wire Proofs.C08_Reuse.
 From Coq Require Import Permutation.
 Open Scope string_scope.
 Open Scope Z_scope.
@@ -236,3 +236,42 @@ Print Assumptions wire_fields_roundtrip.
 Theorem wire_pin_roundtrip p : wpin_ok p -> parse_pin (ser_pin p) = Some p.
 Proof. exact (Proofs.C08_Wire.wire_pin_roundtrip p). Qed.
 Print Assumptions wire_pin_roundtrip.
+
+(* ---- the Raft log: go-libp2p-raft's FSM decodes every entry INTO one long-lived LogOp (consensus/raft/log_op.go) ---- *)
+
+(* decoding on top of a zero value is decoding into a fresh value (every codec, every tag table, every type, every wire) *)
+Theorem dec_onto_zero_is_dec c sch t w : dec_onto c sch (zero_val t) t w = dec c sch t w.
+Proof. exact (dec_onto_zero_is_dec_l c sch w t). Qed.
+Print Assumptions dec_onto_zero_is_dec.
+
+(* the LogOp rows regenerated from log_op.go at this run are the ones the model is written for (TagCtx, Cid, Type; the span
+   context `omitempty`), the Pin rows are in the order pin_to_val uses, and the table with LogOp on top is well-formed *)
+Theorem raft_logop_table_wellformed : logop_layout_ok = true /\ pin_layout_ok = true /\ schema_ok Msgpack raft_schema = true.
+Proof. exact (conj (proj1 layouts_ok) (conj (proj2 layouts_ok) raft_schema_ok)). Qed.
+Print Assumptions raft_logop_table_wellformed.
+
+(* one well-formed entry (pin or unpin of a well-formed pin without origins - guard of the finding origins-undecodable),
+   decoded onto the shared op in whatever condition the earlier entries left it (any tag context, any type; no pin, because
+   ApplyTo dropped it): the tracker is handed exactly the submitted pin, the state reads back its stored form, and the op
+   is left without a pin again *)
+Theorem logop_entry_independent_of_history tg t0 e : wf_entry e = true -> entry_has_iface e = false ->
+  logop_step true (logop_val tg None t0) e = (expected e, logop_val tg None (fst e)).
+Proof. exact (logop_step_wf tg t0 e). Qed.
+Print Assumptions logop_entry_independent_of_history.
+
+(* hence for every sequence of such entries the i-th outcome is a function of the i-th entry alone *)
+Theorem logop_reuse_roundtrip tg t0 es : forallb (fun e => wf_entry e && negb (entry_has_iface e)) es = true ->
+  logop_apply_seq true (logop_val tg None t0) es = map expected es.
+Proof. exact (logop_reuse_roundtrip_l es tg t0). Qed.
+Print Assumptions logop_reuse_roundtrip.
+
+(* the statement is about the reset: the same loop without `op.Cid = nil` stores the second of two entries under the
+   first one's name (and replication factors, expiry, metadata, reference ...) *)
+Theorem logop_reuse_without_reset_refuted :
+  exists p1 p2 tr st,
+    forallb (fun e => wf_entry e && negb (entry_has_iface e)) [(1, p1); (1, p2)] = true /\ name (popts p2) = "" /\ name (popts p1) <> "" /\
+    logop_apply_seq true logop_zero [(1, p1); (1, p2)] = [expected (1, p1); expected (1, p2)] /\
+    logop_apply_seq false logop_zero [(1, p1); (1, p2)] = [expected (1, p1); SPinned tr st] /\
+    name (popts st) = name (popts p1) /\ name (popts tr) = name (popts p1) /\ expected (1, p2) <> SPinned tr st.
+Proof. exact logop_reuse_without_reset_refuted_l. Qed.
+Print Assumptions logop_reuse_without_reset_refuted.
